@@ -220,9 +220,9 @@ func runCrashWorkload(c *CaseCtx, o crashOpts) {
 func init() {
 	register(&Check{
 		ID: "C10", Level: "fault_enumeration",
-		NCases: func(t string) int { return tier(t, 32, 300) + tier(t, 3, 6) },
+		NCases: func(t string) int { return tier(t, 32, 200) + tier(t, 3, 6) },
 		Run: func(c *CaseCtx) {
-			if base := tier(c.Tier, 32, 300); c.Case >= base {
+			if base := tier(c.Tier, 32, 200); c.Case >= base {
 				runHookAudit(c, c.Case-base)
 				return
 			}
@@ -248,7 +248,7 @@ func init() {
 	})
 	register(&Check{
 		ID: "C11", Level: "fault_enumeration",
-		NCases: func(t string) int { return tier(t, 32, 900) },
+		NCases: func(t string) int { return tier(t, 32, 500) },
 		Run: func(c *CaseCtx) {
 			runCrashWorkload(c, crashOpts{Power: true, Modes: []int{0, 0, 1, 2}, NTx: 10 + c.Rng.Intn(20), Failed: c.Case%2 == 0, Reopen: true,
 				Mode: "state", Class: "power-loss", Merge: c.Case%4 == 1, IOFail: c.Case%4 == 2 || c.Case%8 == 1})
